@@ -256,8 +256,12 @@ fn c18(seed: u64, cases: usize, model_path: &str) -> serde_json::Value {
         }
         // ---- (3) validate-ok but not well-formed: must not panic
         if case % 2 == 0 {
-            let mut c = good.clone(); let k = ["and_ops_plus", "and_ops_minus", "input_after_gate", "input_party_range", "input_idx_range"][r.below(5) as usize];
-            match k { "and_ops_plus" => c.and_ops += r.range(1, 3) as usize, "and_ops_minus" => c.and_ops = c.and_ops.saturating_sub(1),
+            let mut c = good.clone(); let k = ["and_ops_plus", "and_ops_minus", "input_after_gate", "input_party_range", "input_idx_range", "input_after_gate_undeclared"][if case == 2 { 5 } else { r.below(6) as usize }];
+            match k {
+                "input_after_gate_undeclared" => { // party 0 declares two input bits but loads one; party 1's input is loaded after a gate, at an index below the declared total
+                    let insts = vec![Inst { out: Reg(0), op: Op::Input(Input { party: 0, input: 0 }) }, Inst { out: Reg(1), op: Op::Not(Not(Reg(0))) }, Inst { out: Reg(2), op: Op::Input(Input { party: 1, input: 0 }) }, Inst { out: Reg(3), op: Op::Xor(Xor(Reg(1), Reg(2))) }];
+                    let mut ir = vec![0usize; n]; ir[0] = 2; ir[1] = 1;
+                    c = Circuit { input_regs: ir, insts, max_reg_count: 4, output_regs: vec![Reg(3)], and_ops: 0 }; } "and_ops_plus" => c.and_ops += r.range(1, 3) as usize, "and_ops_minus" => c.and_ops = c.and_ops.saturating_sub(1),
                 "input_after_gate" => { // counters stay consistent: party 1's second input is loaded after k gates
                     let k = r.range(1, 4) as u32; let mut insts = vec![Inst { out: Reg(0), op: Op::Input(Input { party: 0, input: 0 }) }, Inst { out: Reg(1), op: Op::Input(Input { party: 1, input: 0 }) }];
                     for j in 0..k { insts.push(Inst { out: Reg(0), op: if j == 0 { Op::And(And(Reg(0), Reg(1))) } else { Op::Xor(Xor(Reg(0), Reg(1))) } }); }
@@ -274,7 +278,7 @@ fn c18(seed: u64, cases: usize, model_path: &str) -> serde_json::Value {
             if (model_nwf == "ok") != (real_nwf == "ok") || (model_nwf != "ok" && model_nwf != real_nwf) { disagreements.push(json!({"what": "validate(args) on a not-well-formed circuit: model vs mpc", "model": model_nwf, "real": real_nwf, "kind": k, "circuit": circ::to_line(&c)})); }
             let real_valid = c.validate().is_ok();
             if real_valid != (v == "valid") { disagreements.push(json!({"what": "validate: model vs garble_lang", "model": v, "real": format!("{:?}", c.validate()), "circuit": circ::to_line(&c)})); }
-            if run.outs.iter().any(|o| matches!(o, Out::Panic(_))) { failures.push(json!({"witness": if k == "input_after_gate" { "C18-c:input-after-gate" } else { "C18:other-panic" }, "failure": format!("{k}: {:?}", run.outs.iter().map(short).collect::<Vec<_>>()), "case": {"n": n, "circuit": circ::to_line(&c)}})); }
+            if run.outs.iter().any(|o| matches!(o, Out::Panic(_))) { failures.push(json!({"witness": if k.starts_with("input_after_gate") { "C18-c:input-after-gate" } else { "C18:other-panic" }, "failure": format!("{k}: {:?}", run.outs.iter().map(short).collect::<Vec<_>>()), "case": {"n": n, "circuit": circ::to_line(&c)}})); }
         }
     }
     json!({"executions": execs, "distinct_nontrivial": distinct.len(), "distribution": dist, "samples": samples, "model_disagreements": disagreements, "impl_vs_oracle_failures": failures, "model_requests": m.requests})
